@@ -223,7 +223,7 @@ class SQLiteBuildDB : public BuildDB {
         result = sqlite3_exec(
           db, ("CREATE TABLE key_names ("
                "id INTEGER PRIMARY KEY, "
-               "key STRING UNIQUE);"),
+               "key TEXT UNIQUE);"),
           nullptr, nullptr, &cError);
       }
       if (result == SQLITE_OK) {
